@@ -959,7 +959,62 @@ Q_PARAM_OBJECTS = {
 # Queue._feed is NOT compiled (local aliases of bound methods, try/except IndexError, the
 # sentinel): its body must match this text exactly, and then the hand-written program below is
 # emitted.  Any edit of _feed breaks the obligation (fail closed).
+# two texts are recognised: the repaired feeder (try/except INSIDE `while 1`: an object that cannot be sent is
+# dropped, its capacity token is given back with queue_sem.release() and the thread goes on) and the feeder as it
+# was before the repair (handler outside the loop: the thread ends; kept so that the model follows the code if
+# that behaviour ever returns -- the check then reports the ended feeder concretely)
 FEED_EXPECTED = """debug('starting thread to feed data to pipe')
+nacquire = notempty.acquire
+nrelease = notempty.release
+nwait = notempty.wait
+bpopleft = buffer.popleft
+sentinel = _sentinel
+if sys.platform != 'win32':
+    wacquire = writelock.acquire
+    wrelease = writelock.release
+else:
+    wacquire = None
+while 1:
+    try:
+        nacquire()
+        try:
+            if not buffer:
+                nwait()
+        finally:
+            nrelease()
+        try:
+            while 1:
+                obj = bpopleft()
+                if obj is sentinel:
+                    debug('feeder thread got sentinel -- exiting')
+                    close()
+                    return
+                obj = ForkingPickler.dumps(obj)
+                if wacquire is None:
+                    send_bytes(obj)
+                else:
+                    wacquire()
+                    try:
+                        send_bytes(obj)
+                    finally:
+                        wrelease()
+        except IndexError:
+            pass
+    except Exception as exc:
+        if ignore_epipe and get_errno(exc) == errno.EPIPE:
+            return
+        try:
+            if is_exiting():
+                info('error in queue thread: %r', exc, exc_info=True)
+                return
+            elif not error('error in queue thread: %r', exc, exc_info=True):
+                import traceback
+                traceback.print_exc()
+        except Exception:
+            pass
+        if queue_sem is not None:
+            queue_sem.release()"""
+FEED_OLD = """debug('starting thread to feed data to pipe')
 nacquire = notempty.acquire
 nrelease = notempty.release
 nwait = notempty.wait
@@ -1008,11 +1063,16 @@ except Exception as exc:
     except Exception:
         pass"""
 FEED_ARGS_EXPECTED = ("(self._buffer, self._notempty, self._send_bytes, self._wlock, "
-                      "self._writer.close, self._ignore_epipe)")
+                      "self._writer.close, self._ignore_epipe, self._sem)")      # queue_sem = the capacity semaphore
+FEED_ARGS_OLD = ("(self._buffer, self._notempty, self._send_bytes, self._wlock, "
+                 "self._writer.close, self._ignore_epipe)")
+FEED_PARAMS_EXPECTED = ['buffer', 'notempty', 'send_bytes', 'writelock', 'close', 'ignore_epipe', 'queue_sem']
 
 
-def feed_program(srcs, fk_src):
-    """hand translation of Queue._feed (nwait() = the compiled body of TCond.wait)"""
+def feed_program(srcs, fk_src, repaired=True):
+    """hand translation of Queue._feed (nwait() = the compiled body of TCond.wait).  repaired: the handler
+    `except Exception` is inside `while 1` and ends with queue_sem.release(); else (the feeder before the
+    repair) the handler is outside the loop and the function returns"""
     comp = QCompiler(srcs)
     comp.nreg = 3
     top, rel, pop, wend = comp.label(), comp.label(), comp.label(), comp.label()
@@ -1027,13 +1087,17 @@ def feed_program(srcs, fk_src):
     comp.place(pop)
     comp.emit('BufPop 2 %s', top)                     # obj = bpopleft()  (IndexError: outer loop)
     dead = comp.label()
-    comp.emit('Dumps 2 %s', dead)                     # obj = ForkingPickler.dumps(obj); an exception leaves both loops
+    comp.emit('Dumps 2 %s', dead)                     # obj = ForkingPickler.dumps(obj); an exception goes to the handler
     comp.emit('Acq 2 FT FF %d' % TMP)                 # wacquire()
     comp.emit('Send 2')                               # send_bytes(obj)
     comp.emit('Rel 2')                                # wrelease()
     comp.emit('Jmp %s', pop)
     comp.place(dead)
-    comp.emit('Exit')                                 # except Exception: ... (logged); the function returns
+    if repaired:
+        comp.emit('Rel 0')                            # except Exception: (logged) queue_sem.release()
+        comp.emit('Jmp %s', top)                      # while 1: the thread goes on with the next object
+    else:
+        comp.emit('Exit')                             # except Exception: ... (logged); the function returns
     return [q_rename(i) for i in comp.resolve()]
 
 
@@ -1070,14 +1134,18 @@ def gen_P_queue(repo):
             '_SimpleQueue': q_src, 'TCond': fk_src, 'TLock': fk_src, '': client_src}
     # --- shape checks of what is not compiled
     fn, _ = q_src.method('Queue', '_feed')
-    if body_text(fn) != FEED_EXPECTED:
+    feed_text = body_text(fn)
+    if feed_text not in (FEED_EXPECTED, FEED_OLD):
         raise TranslateError('Queue._feed changed: the hand-written feeder program no longer applies')
+    repaired = feed_text == FEED_EXPECTED
+    if repaired and [a.arg for a in fn.args.args] != FEED_PARAMS_EXPECTED:
+        raise TranslateError('Queue._feed: unexpected parameters %r' % [a.arg for a in fn.args.args])
     st, _ = q_src.method('Queue', '_start_thread')
     starts = [n for n in ast.walk(st) if isinstance(n, ast.Call) and ast.unparse(n.func) == 'threading.Thread']
     if len(starts) != 1:
         raise TranslateError('Queue._start_thread no longer creates exactly one thread')
     kw = {k.arg: ast.unparse(k.value) for k in starts[0].keywords}
-    if kw.get('target') != 'Queue._feed' or kw.get('args') != FEED_ARGS_EXPECTED:
+    if kw.get('target') != 'Queue._feed' or kw.get('args') != (FEED_ARGS_EXPECTED if repaired else FEED_ARGS_OLD):
         raise TranslateError('Queue._start_thread passes %r to the feeder' % kw)
     af, _ = q_src.method('Queue', '_after_fork')
     af_text = body_text(af)
@@ -1106,7 +1174,8 @@ def gen_P_queue(repo):
             raise TranslateError('SimpleQueue.__init__ lost %r' % need)
     out = ['(* GENERATED on every run by translate/kernels/semprog.py from billiard/queues.py,',
            '   billiard/synchronize.py (working tree), harness/c16_clients.py and harness/c16_fakes.py.',
-           '   p_feed is a hand translation emitted only while Queue._feed matches its expected text. *)',
+           '   p_feed is a hand translation emitted only while Queue._feed matches its expected text%s. *)'
+           % ('' if repaired else ' (the feeder BEFORE the repair: handler outside the loop)'),
            'From Coq Require Import ZArith List Bool.',
            'From BV Require Import Model.SemProg Model.QueueProg.',
            'Import ListNotations.',
@@ -1124,7 +1193,7 @@ def gen_P_queue(repo):
     progs = []
     for name, cid in Q_CLIENTS:
         progs.append((name, cid, compile_q_client(name, srcs, client_src)))
-    progs.append(('feed', 2, feed_program(srcs, fk_src)))
+    progs.append(('feed', 2, feed_program(srcs, fk_src, repaired)))
     for name, cid, prog in sorted(progs, key=lambda x: x[1]):
         out.append('Definition p_%s : list qinstr :=' % name)
         out.append('  [ ' + ';\n    '.join('%-30s (* %2d *)' % (ins, k) for k, ins in enumerate(prog)) + ' ].')
